@@ -371,8 +371,6 @@ def context_layer_data(case, layer):
     if layer['for_ns']:
         d['for_namespaces'] = {ns: {k: materialise_value(program, v) for k, v in e.items()}
                                for ns, e in layer['for_ns'].items()}
-    if layer.get('uses'):
-        d['uses'] = list(layer['uses'])
     return d
 
 
@@ -382,8 +380,28 @@ def make_context(case, cfgdir):
         return None
     from tcv.eq import canon
     out = []
+    counter = [0]
+
+    def emit_nested(layer, d):
+        uses = []
+        for sub in layer.get('nested', []):
+            sd = context_layer_data(case, sub['layer'])
+            emit_nested(sub['layer'], sd)
+            fmt = 'json' if sub['layer']['form'] == 'file_json' else 'yaml'
+            counter[0] += 1
+            sp = Path(cfgdir) / f'subcontext{counter[0]}.{fmt}'
+            text = dump(sd, fmt)
+            if canon(load_back(text, fmt)) != canon(sd):
+                raise BadEmit('context')
+            sp.write_text(text)
+            base = ('{CFGDIR}/' + sp.name) if case.get('global_vars') else str(sp)
+            uses.append(base + (f' as {sub["ns"]}' if sub.get('ns') else ''))
+        if uses:
+            d['uses'] = uses if len(uses) > 1 or counter[0] % 2 else uses[0]
+
     for li, layer in enumerate(ctx['layers']):
         d = context_layer_data(case, layer)
+        emit_nested(layer, d)
         if layer['form'] == 'dict':
             out.append(d)
         else:
@@ -410,7 +428,10 @@ def make_global_vars(case, cfgdir):
     return vals
 
 
-def make_config(case, base_dir, cfgdir, root=None, part=None):
+_DEFAULT = object()
+
+
+def make_config(case, base_dir, cfgdir, root=None, part=None, context=_DEFAULT):
     import taskchain
     rf = case['files'][case['root'] if root is None else root]
     path = file_path(cfgdir, rf)
@@ -424,4 +445,4 @@ def make_config(case, base_dir, cfgdir, root=None, part=None):
     else:
         fp = path
     return taskchain.Config(Path(base_dir), fp, global_vars=make_global_vars(case, cfgdir),
-                            context=make_context(case, cfgdir), **kw)
+                            context=make_context(case, cfgdir) if context is _DEFAULT else context, **kw)
